@@ -34,6 +34,12 @@ def gen_pair(r):
     if r.random() < 0.25:
         ddirs.discard(sorted(ddirs)[0]) if ddirs else None
     dspec = ew.spec_of(sorted(ddirs), dfiles)
+    if r.random() < 0.25:
+        # k empty directories only in the source, k extra files only in the destination (equal entry counts)
+        k = r.randrange(1, 3)
+        for j in range(k):
+            sspec.append({"p": "emptydir%d" % j, "k": "d"})
+            dspec.append({"p": "extra%d.dat" % j, "k": "f", "data": b"extra", "mt_ns": 10**9})
     conflict = None
     if r.random() < 0.15:
         # type conflict: a directory in one tree, a file of the same name in the other
